@@ -11,7 +11,7 @@ import dask.array as da
 import numpy as np
 
 from ..sim import gen_sched, MODES, HarnessError
-from ..util import A, L, Result, rel_diff, sig6, compositions, random_composition
+from ..util import A, L, Result, rel_diff, sig6, compositions, random_composition, is_harness_bug
 from .common import SimRec, gen_data, gen_simplex, trim, drop_row_chunks, tail
 
 ID = "C04"
@@ -122,6 +122,8 @@ def gen_case(rng, tier, kind=None):
             case["chunks"] = random_composition(rng, n, rng.randint(1, 3))
         if rng.random() < 0.15:
             case["refit"] = True  # the same estimator object is trained a second time
+            if rng.random() < 0.15 and n <= 40:
+                case["refit_n"] = rng.randint(6, 40)
             # ... possibly through a Dask array that carries the same (explicit) name as the
             # first one although its content differs (a long-lived array over a store that was
             # refilled, `da.from_array(batch, name="feats")` per batch)
@@ -546,15 +548,21 @@ def _fit(case, m, X):
                 _fit_once(case, m, np.concatenate([X, X[:, :1]], axis=1))
         except HarnessError:
             raise
-        except Exception:
+        except Exception as _e:
+            if is_harness_bug(_e):
+                raise HarnessError(f"harness bug: {_e!r}")
             pass
     m = _fit_once(case, m, X)
     if case.get("refit"):
         # a long-lived estimator object trained again (nothing from the first call may leak
-        # differently in the two paths)
+        # differently in the two paths) - once, or dozens of times
         Xr = np.ascontiguousarray(_xform(case, A(case["X"]))[::-1])
         X2 = _dask_X(case, Xr, reverse=True) if isinstance(X, da.Array) else Xr
-        m = _fit_once(case, m, X2, reverse=True)
+        for rep in range(case.get("refit_n", 1)):
+            if rep % 2 == 0:
+                m = _fit_once(case, m, X2, reverse=True)
+            else:
+                m = _fit_once(case, m, X)
     return m
 
 
@@ -678,7 +686,9 @@ def run_case(case, replay=None):
                 label="init")
         except HarnessError:
             raise
-        except Exception:
+        except Exception as _e:
+            if is_harness_bug(_e):
+                raise HarnessError(f"harness bug: {_e!r}")
             init_mem = init_dask = None
         if init_mem is not None:
             dv = rel_diff(init_mem, init_dask, scale=s)
@@ -706,6 +716,8 @@ def run_case(case, replay=None):
                 mem_cap = _params(kind, _fit(ref, _make(ref, None, None), fresh()))
                 mem_thr = None
     except Exception as e:  # the in-memory path itself refuses this input
+        if is_harness_bug(e):
+            raise HarnessError(f"harness bug: {e!r}")
         mem_exc = e
 
     # preconditions on the in-memory trajectory
@@ -755,7 +767,9 @@ def run_case(case, replay=None):
             rec.probe("first_attempt_failed_then_retried")
         except HarnessError:
             raise
-        except Exception:
+        except Exception as _e:
+            if is_harness_bug(_e):
+                raise HarnessError(f"harness bug: {_e!r}")
             pass  # the attempt failed for its own reasons; the retry below decides
         if kind not in ("kmeans", "wccn", "whitening"):
             carry.pop("est", None)  # these continue from their state: retry with a fresh one
@@ -773,6 +787,8 @@ def run_case(case, replay=None):
         d_cap = rec.run(sched, dask_fit(K if iterative else None, None), label="cap")
         d_exc = None
     except Exception as e:
+        if is_harness_bug(e):
+            raise HarnessError(f"harness bug: {e!r}")
         if isinstance(e, HarnessError):
             raise
         d_exc, d_cap = e, None
@@ -826,6 +842,8 @@ def run_case(case, replay=None):
             try:
                 other = rec.run(s2, dask_fit(K if iterative else None, None), label="x_" + mode)
             except Exception as e:
+                if is_harness_bug(e):
+                    raise HarnessError(f"harness bug: {e!r}")
                 if isinstance(e, HarnessError):
                     raise
                 return Result.violation("dask-raises", {"exception": repr(e)[:300], "mode": mode,
@@ -886,7 +904,9 @@ def _preconditions(case, X, s, traj, thr):
         cents = []
         try:
             cents.append(_params(kind, _fit(case, _make(case, 0, None), X.copy()))[0][1])
-        except Exception:
+        except Exception as _e:
+            if is_harness_bug(_e):
+                raise HarnessError(f"harness bug: {_e!r}")
             return "near-tie"
         cents += [t[0][1] for t in traj[:-1]]
         for c in cents:
